@@ -16,6 +16,7 @@ RULE = (
     ' Also: views at id-width boundaries (highest id 2**8-1, 2**16-1 and neighbours, with controls).'
     ' Also: unions of 255 .. 600 views sharing one experiment; 3- and 4-slot conditions at table sizes 2**k - 2 .. 2**k; one history in a hundred has 60..100 operations.'
     " Also: the derived single-effect table of views against the parent's rows on fixed screens with blank-only samples."
+    ' Also: the union of all plates of a 2**19-row screen in a memory-capped child process.'
 )
 ASSUMPTIONS = [
     "the model of a view is the sorted list of parent row indices; ids of a materialised screen are not asserted (Screen.combine/to_screen document that ids may change)",
@@ -111,6 +112,10 @@ def exhaustive(tier):
     # single-agent wells and controls in either slot
     for variant in range(3 if tier == "quick" else 6):
         yield {"kind": "ste", "variant": variant}
+    # the union of all plates of a production-size screen in a process whose address space is capped (a cluster job's memory limit)
+    # a little above what it uses: whatever needs memory the job cannot get may fail - but a union that is returned is the union
+    for rows_, plates_ in [(2**19, 600)] + ([(2**20, 300), (2**18, 1500)] if tier != "quick" else []):
+        yield {"kind": "capped_union", "rows": rows_, "plates": plates_, "headroom_mib": 160}
     # unions of many views in one call: 255 .. 600 operands that all share one reference experiment
     for m in [255, 256, 257] + ([300, 511, 512, 513, 600] if tier != "quick" else [512]):
         yield {"kind": "many_operands", "m": m}
@@ -208,6 +213,36 @@ def _check_ste(case):
     return {"nontrivial": True, "labels": ["single-effect-table-of-views"], "counts": {"ste_views": len(views)}}
 
 
+def _check_capped_union(case):
+    from vf import xproc
+
+    body = (
+        "import resource\n"
+        "from batchie.data import Screen, ScreenSubset\n"
+        "n, k = params['rows'], params['plates']\n"
+        "i = np.arange(n)\n"
+        "screen = Screen(treatment_names=np.stack([np.char.add('t', (i % 7).astype(str)), np.char.add('t', ((i + 1 + i // 7 % 5) % 7).astype(str))], axis=1), treatment_doses=np.ones((n, 2)), observations=np.zeros(n), observation_mask=np.zeros(n, dtype=bool), sample_names=np.char.add('s', (i % 3).astype(str)), plate_names=np.char.add('p', ((i * 7919) % k).astype(str)), control_treatment_name='ctl')\n"
+        "ops = sorted(screen.plates, key=lambda p: int(p.plate_id))\n"
+        "vm = int([l for l in open('/proc/self/status') if l.startswith('VmSize')][0].split()[1]) * 1024\n"
+        "soft, hard = resource.getrlimit(resource.RLIMIT_AS)\n"
+        "resource.setrlimit(resource.RLIMIT_AS, (vm + params['headroom_mib'] * 2**20, hard))\n"
+        "try:\n"
+        "    u = ScreenSubset.concat(ops)\n"
+        "    print('UNION', int(np.sum(u.selection_vector)), len(ops))\n"
+        "except MemoryError:\n"
+        "    print('MEMORYERROR')\n"
+    )
+    ok, text = xproc.python(body, 77, rows=case["rows"], plates=case["plates"], headroom_mib=case["headroom_mib"])
+    require(ok, "capped_union.failed", lambda: "the union of all plates in a memory-capped process failed: %s" % text[-500:])
+    if "MEMORYERROR" in text:
+        return {"nontrivial": False, "labels": ["capped-union:out-of-memory"]}
+    got = [l for l in text.splitlines() if l.startswith("UNION")]
+    require(bool(got), "harness", "no result line from the capped process: %r" % text[-300:])
+    total, n_ops = int(got[0].split()[1]), int(got[0].split()[2])
+    require(total == case["rows"] and n_ops == case["plates"], "concat.capped_union", lambda: "in a process whose address space was capped %d MiB above its use, the union of all %d plates of a %d-row screen selects %d rows" % (case["headroom_mib"], n_ops, case["rows"], total))
+    return {"nontrivial": True, "labels": ["capped-union"]}
+
+
 def _check_many_operands(case):
     from batchie.data import ScreenSubset
 
@@ -276,6 +311,8 @@ def check_case(case):
         return _check_xyx(case)
     if case.get("kind") == "width":
         return _check_width(case)
+    if case.get("kind") == "capped_union":
+        return _check_capped_union(case)
     if case.get("kind") == "ste":
         return _check_ste(case)
     if case.get("kind") == "many_operands":
